@@ -3757,27 +3757,10 @@ class OpAlignPartitions(MaybeAlignPartitions):
                 result = self.substitute_parameters(substitutions)
                 return type(parent)(result, *parent.operands[1:])
 
-    def _lower(self):
-        # This can be expensive when something that has expensive division
-        # calculation is in the Expression
-        dfs = self.args
-        if (
-            len(dfs) == 1
-            or all(dfs[0].divisions == df.divisions for df in dfs)
-            or len(self.divisions) == 2
-            and max(map(lambda x: len(x.divisions), dfs)) == 2
-        ):
-            return self._op(self.frame, self.op, self.other, *self.operands[3:])
-
-        from dask.dataframe.dask_expr._repartition import RepartitionDivisions
-
-        frame = RepartitionDivisions(
-            self.frame, new_divisions=self.divisions, force=True
-        )
-        other = RepartitionDivisions(
-            self.other, new_divisions=self.divisions, force=True
-        )
-        return self._op(frame, self.op, other, *self.operands[3:])
+    def _expr_cls(self, frame, other, op, *args):
+        # MaybeAlignPartitions._lower aligns the partitions (equal unknown
+        # divisions do not mean aligned partitions, those need a shuffle)
+        return self._op(frame, op, other, *args)
 
     @staticmethod
     def _op(frame, op, other, *args, **kwargs):
